@@ -231,6 +231,40 @@ pub fn oracles(cfg: &Cfg, pcm: &Pcm, stream: &Stream, bytes: &[u8]) -> (String, 
     (o1, o3, o4, o9)
 }
 
+/// C15 on the emitted bytes: the crate's own parser consumes all input, the tree verifies,
+/// re-serialises to the same bytes and decodes to the original samples.
+#[cfg(feature = "decode")]
+pub fn own_parser_oracle(bytes: &[u8], original: &[i32]) -> String {
+    use flacenc::component::Decode;
+    match flacenc::component::parser::stream::<nom::error::Error<&[u8]>>(bytes) {
+        Err(_) => "fail:own_parser_rejects".to_string(),
+        Ok((rest, s)) => {
+            if !rest.is_empty() {
+                return "fail:input_not_consumed".to_string();
+            }
+            if s.verify().is_err() {
+                return "fail:parsed_tree_does_not_verify".to_string();
+            }
+            if stream_bytes(&s) != bytes {
+                return "fail:reserialised_bytes_differ".to_string();
+            }
+            let mut audio = vec![];
+            for i in 0..s.frame_count() {
+                audio.extend(s.frame(i).unwrap().decode());
+            }
+            if audio != original {
+                return "fail:decoded_audio_differs".to_string();
+            }
+            "ok".to_string()
+        }
+    }
+}
+
+#[cfg(not(feature = "decode"))]
+pub fn own_parser_oracle(_bytes: &[u8], _original: &[i32]) -> String {
+    "ok".to_string()
+}
+
 pub fn run_record(id: &str, cfg: &Cfg, pcm: &Pcm, mode: &str, src: &str, with_oracle_log: bool) -> String {
     let head = format!(
         "stream id={id} cls={}|{}|{}|b{}c{} cfg={} ch={} bps={} rate={} bs={} mode={mode} src={src} len={} pcm={}",
@@ -264,13 +298,14 @@ pub fn run_record(id: &str, cfg: &Cfg, pcm: &Pcm, mode: &str, src: &str, with_or
                 }
                 Err(e) => format!("fail:other_delivery_errors_{e}"),
             };
-            (bytes, verify_ok, count, o, log, o14)
+            let o15 = own_parser_oracle(&bytes, &p2.data);
+            (bytes, verify_ok, count, o, log, o14, o15)
         })
     });
     match res {
-        Err(m) => format!("{head} impl=panic msg={m} o_c01=fail:panic o_c03=fail:panic o_c04=fail:panic o_c09=fail:panic o_c14=fail:panic"),
-        Ok(Err(e)) => format!("{head} impl=err:{e} o_c01=fail:error_{e} o_c03=fail:error o_c04=fail:error o_c09=fail:error o_c14=fail:error"),
-        Ok(Ok((bytes, verify_ok, count, (o1, o3, o4, o9), log, o14))) => {
+        Err(m) => format!("{head} impl=panic msg={m} o_c01=fail:panic o_c03=fail:panic o_c04=fail:panic o_c09=fail:panic o_c14=fail:panic o_c15=fail:panic"),
+        Ok(Err(e)) => format!("{head} impl=err:{e} o_c01=fail:error_{e} o_c03=fail:error o_c04=fail:error o_c09=fail:error o_c14=fail:error o_c15=fail:error"),
+        Ok(Ok((bytes, verify_ok, count, (o1, o3, o4, o9), log, o14, o15))) => {
             let mut olog = String::new();
             for ev in &log {
                 match ev {
@@ -287,7 +322,7 @@ pub fn run_record(id: &str, cfg: &Cfg, pcm: &Pcm, mode: &str, src: &str, with_or
             }
             let olog = if with_oracle_log { format!(" olog={olog}") } else { String::new() };
             format!(
-                "{head} impl=ok impl_verify={} impl_count={} impl_bytes={}{olog} o_c01={o1} o_c03={o3} o_c04={o4} o_c09={o9} o_c14={o14}",
+                "{head} impl=ok impl_verify={} impl_count={} impl_bytes={}{olog} o_c01={o1} o_c03={o3} o_c04={o4} o_c09={o9} o_c14={o14} o_c15={o15}",
                 verify_ok as u8, count, hex(&bytes)
             )
         }
